@@ -17,9 +17,9 @@ PID = "C18"
 RULE = ("every non-test module of the package as first import in a fresh interpreter (exhaustive), and ordered pairs "
         "(m1, m2) explored by fork after importing m1 (quick: a seeded sample of unordered pairs, both orders; "
         "thorough: all ordered pairs); a case = one import history; distinct by construction; non-trivial = all")
-REQUIRED_MONITORS = ("single.import", "pair.import", "pair.names.compared")
+REQUIRED_MONITORS = ("single.import", "pair.import", "pair.names.compared", "pair.loaded-modules.compared")
 ASSUMPTIONS = ["os.fork() after importing m1 is equivalent to a fresh interpreter whose import history is exactly [m1]",
-               "public names = __all__ when defined, else the module's non-underscore globals"]
+               "public names = the entries of __all__ that are bound, when __all__ is defined, else the module's non-underscore globals"]
 GRACE_S = 300
 
 
@@ -103,7 +103,8 @@ def run_case(ctx, P, stream, idx):
                     P.deviation("import.second-import-fails|%s" % rec["m2"],
                                 "import %s after %s: %s" % (rec["m2"], m1, rec["error"]),
                                 {"stream": stream, "idx": idx, "history": [m1, rec["m2"]], "error": rec["error"]})
-            P.notes.setdefault("pairs", {})["%s>%s" % (m1, rec["m2"])] = [rec.get("names_m1"), rec.get("names_m2")]
+            P.notes.setdefault("pairs", {})["%s>%s" % (m1, rec["m2"])] = [rec.get("names_m1"), rec.get("names_m2"),
+                                                                          rec.get("loaded")]
 
 
 def finish_shard(ctx, P):
@@ -113,13 +114,21 @@ def finish_shard(ctx, P):
 def merge_pairs(P):
     """order-independence of bound public names: compare (a,b) with (b,a)"""
     pairs = P.notes.pop("pairs", {})
-    for key, (n1, n2) in pairs.items():
+    for key, (n1, n2, loaded) in pairs.items():
         a, b = key.split(">")
         other = pairs.get("%s>%s" % (b, a))
         if other is None or a > b:
             continue
         P.monitor("pair.names.compared")
-        o_nb, o_na = other  # after (b, a): names of b (as m1), names of a (as m2)
+        o_nb, o_na, o_loaded = other  # after (b, a): names of b (as m1), names of a (as m2)
+        # every other package module the two imports pulled in binds the same public names in both orders
+        if loaded and o_loaded:
+            P.monitor("pair.loaded-modules.compared")
+            third = sorted(m for m in set(loaded) & set(o_loaded) if loaded[m] != o_loaded[m] and m not in (a, b))
+            if third:
+                P.deviation("import.order-dependent-names-of-loaded-module|%s" % third[0],
+                            "public names of %s differ between import orders (%s,%s) and (%s,%s)" % (third[:3], a, b, b, a),
+                            {"stream": "first", "idx": mods().index(a), "a": a, "b": b, "modules": third[:10]})
         if n1 != o_na or n2 != o_nb:
             P.deviation("import.order-dependent-names|%s,%s" % (a, b),
                         "public names differ between import orders (%s,%s) and (%s,%s)" % (a, b, b, a),
